@@ -228,7 +228,7 @@ func c10Vector(c *Ctx, raw stdjson.RawMessage) {
 
 func c10Replay(c *Ctx, raw stdjson.RawMessage) {
 	var w c10WideCase
-	if stdjson.Unmarshal(raw, &w) == nil && (w.Shape != nil || w.Val > 100000) {
+	if stdjson.Unmarshal(raw, &w) == nil && (w.Shape != nil || w.Val > 100000 || w.Val == -7) {
 		c10WideReplay(c, w)
 		return
 	}
